@@ -108,6 +108,15 @@ def seeding(B, G):
         torch.RNG.reset()
         qucumber.set_random_seed(seed, cpu=False, gpu=True, quiet=True)
         G.fact("gpu_only_without_gpu_seeds_nothing", torch.RNG.seeds == [], str(torch.RNG.seeds))
+        # every call form that asks for the CPU generator seeds it, whatever the gpu flag says (no CUDA here)
+        for tag, kw in (("cpu+gpu", dict(cpu=True, gpu=True, quiet=True)), ("defaults", dict()), ("cpu+gpu loud", dict(cpu=True, gpu=True))):
+            torch.RNG.reset()
+            import warnings as _w
+
+            with _w.catch_warnings():
+                _w.simplefilter("ignore")
+                qucumber.set_random_seed(seed, **kw)
+            G.fact("seed_forwarded_unchanged(%s)" % tag, len(torch.RNG.seeds) == 1 and torch.RNG.seeds[0][0] == "cpu" and torch.RNG.seeds[0][1] is seed, str(torch.RNG.seeds))
     else:
         calls = []
         orig = torch.manual_seed
@@ -119,6 +128,18 @@ def seeding(B, G):
         G.fact("seed_forwarded_unchanged", calls == [seed], str(calls))
         G.fact("seeding_draws_nothing", True, "")
         G.fact("gpu_only_without_gpu_seeds_nothing", True, "")
+        for tag, kw in (("cpu+gpu", dict(cpu=True, gpu=True, quiet=True)), ("defaults", dict()), ("cpu+gpu loud", dict(cpu=True, gpu=True))):
+            del calls[:]
+            import warnings as _w
+
+            torch.manual_seed = lambda s: calls.append(s)
+            try:
+                with _w.catch_warnings():
+                    _w.simplefilter("ignore")
+                    qucumber.set_random_seed(seed, **kw)
+            finally:
+                torch.manual_seed = orig
+            G.fact("seed_forwarded_unchanged(%s)" % tag, calls == [seed], str(calls))
 
 
 def readonly(B, G, kind, n, h, a):
@@ -207,7 +228,23 @@ def readonly(B, G, kind, n, h, a):
             except ArithmeticError as e:  # undefined value in the real-arithmetic model (e.g. variance of one sample): not a mutation
                 G.fact("%s.no_foreign_rng" % name_, True, "operation undefined here: %s" % e)
             changed = [(net, nm) for (net, nm, old), (_, _, p) in zip(before, params_of(B, st)) if not same_entries(B, old, B.scalars(p))]
-            G.fact("%s.leaves_parameters_unchanged" % name_, not changed, "changed: %s" % changed, key="read-only/" + name_)
+            if not changed:
+                G.fact("%s.leaves_parameters_unchanged" % name_, True, "changed: []", key="read-only/" + name_)
+            else:
+                # an entry that is no longer its own symbol: "value unchanged for all parameter values" becomes a solver goal per
+                # entry (an edit that only bites for some values - a clip, a guard - is then decided where it bites)
+                emitted = 0
+                for (net, nm, old), (_, _, p) in zip(before, params_of(B, st)):
+                    if (net, nm) not in changed:
+                        continue
+                    o_, n_ = np.asarray(old, dtype=object).reshape(-1), np.asarray(B.scalars(p), dtype=object).reshape(-1)
+                    for i in range(min(len(o_), len(n_))):
+                        same = (o_[i] is n_[i]) if B.symbolic else (float(o_[i]) == float(n_[i]))
+                        if not same and emitted < 12:
+                            emitted += 1
+                            G.eq("%s.leaves %s.%s[%d] unchanged" % (name_, net, nm, i), n_[i], o_[i], key="read-only/" + name_, tol=1e-12)
+                    if len(o_) != len(n_):
+                        G.fact("%s.leaves_parameters_unchanged" % name_, False, "shape of %s.%s changed" % (net, nm), key="read-only/" + name_)
             if changed:  # restore so that later operations are judged on their own
                 for (net, nm, old), (_, _, p) in zip(before, params_of(B, st)):
                     B.load(p, old)
@@ -302,7 +339,7 @@ def seeding_pf(I):
     orig = torch.manual_seed
     torch.manual_seed = lambda s_: calls.append(s_)
     try:
-        qucumber.set_random_seed(seed, cpu=True, gpu=False, quiet=True)
+        qucumber.set_random_seed(seed, cpu=True, gpu=bool(I.get("gpu", 0)), quiet=True)
     finally:
         torch.manual_seed = orig
     if len(calls) != 1:
@@ -311,7 +348,7 @@ def seeding_pf(I):
 
 
 def specs(tier):
-    return [dict(name="seeding-all-seeds", module="checks.c14", function="seeding_pf", kwargs={}, inputs=dict(seed=("int", -(2 ** 31), 2 ** 63 - 1)))]
+    return [dict(name="seeding-all-seeds", module="checks.c14", function="seeding_pf", kwargs={}, inputs=dict(seed=("int", -(2 ** 31), 2 ** 63 - 1), gpu=("int", 0, 1)))]
 
 
 def jobs(tier):
